@@ -142,6 +142,13 @@ def _nontrivial_bytes(data):
     return len(names) >= 3 and bool(set(names) & (MARK_CONSUMERS | MEMO_OPS))
 
 
+FUZZ_SEEDS = (
+    b"cos\nsystem\n(S'x'\ntR.", b"(cos\nsystem\nS'x'\no0N.", b"cos\nsystem\n)\x81}b.",
+    b"\x80\x04\x8c\x02os\x8c\x06system\x93\x8c\x01x\x85R\x94h\x00\x86.", b"(lp0\nI1\naI2\na(dp1\nVk\np2\ng0\nsa.",
+    b"]q\x00(K\x01K\x02e}q\x01(h\x00h\x00u\x86.", b"\x8f\x94(K\x01K\x02\x90(K\x03\x91h\x00\x86.", b"NNQ0(NNd.",
+)
+
+
 def shards(tier):
     prof = asm.focus_profile()
     depth = 2
@@ -164,12 +171,24 @@ def shards(tier):
     per = 250 if tier == "quick" else 4000
     out += [{"kind": "random", "n": per, "idx": i} for i in range(nrand)]
     out += [{"kind": "natural", "n": 150 if tier == "quick" else 2500, "idx": i} for i in range(8)]
+    runs = 30000 if tier == "quick" else 1500000
+    out += [{"kind": "atheris", "runs": runs, "idx": i} for i in range(1 if tier == "quick" else 6)]
     _ = pres
     return out
 
 
 def run_shard(spec, seed):
     res = ShardResult()
+    if spec["kind"] == "atheris":
+        import os
+
+        from vlib import decode, fuzz
+
+        fuzz.run_atheris(
+            res, f"c09-{spec['idx']}", os.path.join(os.path.dirname(__file__), "prog_fuzz.py"), ["C09"],
+            spec["runs"], seed, seeds=FUZZ_SEEDS if spec["idx"] % 2 == 0 else (), nt=decode.in_typed_domain,
+        )
+        return res
     if spec["kind"] == "enum":
         prof = asm.ENUM_PROFILES[spec["alphabet"]]() if spec.get("alphabet") else asm.focus_profile()
         pres = asm.prefixes(prof, spec["depth"])
